@@ -1,47 +1,109 @@
 /-
   C01, quantitative clause — "a source that has not finished within a step budget has not
-  finished on the VM within the proportional budget either".
+  finished on the VM within the proportional budget either", and its converse.
 
-  The guess `C01_budget_statement` of C01.lean (`n ≤ 4 * m + 4`, universal constants) is FALSE,
-  and so is every other choice of universal constants (`C01_budget_no_universal_constants`):
-  a mark (a label, the `END` keyword of a loop) is a step of the reference machine and compiles
-  to no instruction at all, so `N` marks in a row cost `N` reference steps and zero VM
-  instructions.  The proportionality factor necessarily depends on the source.  What is proved:
+  THE GUESS IS FALSE.  `C01_budget_statement` of C01.lean (`n ≤ 4 * m + 4`) does not hold, and no
+  other pair of universal constants does (`C01_budget_no_universal_constants`): a mark (a label;
+  the `END` keyword of a loop) is a step of the reference machine and compiles to no instruction
+  at all, so `N` marks in a row cost `N` reference steps and zero VM instructions.  The factor
+  necessarily depends on the source.  In the other direction no universal constants exist either:
+  breakpoint sites (`POTENTIAL_BREAK`) are instructions of the VM, and the validator accepts any
+  placement of them (`C01BudgetDemo.sites_*`: one reference step, 101 instructions).
 
-      C01_budget :   vmRun p m = ok vm, vm done   ⟹   the reference execution halts within
-                     κ·m + κ steps,   κ = budgetFactor src = srcWidth src + 1
+  WHAT IS PROVED, for every `p` with `shapeCheck src p` and `wfCheck p` (n = steps of the reference
+  machine, m = instructions of the VM):
 
-  Where the constants come from.  The simulation (Proofs/SimStep.lean) matches a reference step
-  either by at least one VM instruction or by none — a stutter: entering `x := v`, a mark,
-  descending into the first argument of a call, moving to the next argument, storing the value
-  in `x` — and every stutter decreases the measure `cmeasure`: the size of the rest of the
-  statement list in focus plus that of the value under evaluation.  The focus is a suffix of a
-  statement list of the source, so `cmeasure ≤ srcWidth src` in every reachable configuration
-  (Proofs/SimCountWidth.lean), i.e. at most `srcWidth src` stutters separate two VM instructions:
-      · the factor  κ = srcWidth src + 1  of `m`: one reference step that executes, plus the
-        stutters that may follow it, per VM instruction;
-      · the additive κ: the stutters before the first matched instruction, plus the final
-        step into `halted` (which executes no instruction: `HALT` is not executed).
-  (Proofs/SimCount.lean keeps `n + cmeasure ≤ κ·m + srcWidth src` along the execution; the VM
-  is deterministic and no state before the matched `HALT` is done, so the VM's `m` is at
-  least the simulation's.)
+    C01_budget        vmRun p m done  ⟹  the reference execution halts within  κ·m + κ  steps,
+                      κ = stutterFactor src = srcStutter src + 1
+    C01_budget_upper  the reference execution halts after n steps  ⟹  the VM is done, with
+                      agreeing variables, within  C·n + D  instructions,
+                      C = 4·(S + 1),  D = (S + 1)·(L + 2),
+                      S = maxSiteRun p.code (longest run of consecutive sites), L = #routines
+    (+ C01_budget_width: the first statement with the cruder factor srcWidth src + 1, obtained
+     from the existing step lemma alone; C01_compile_budget / C01_compile_budget_upper: the same
+     for every accepted compilation of the model)
+
+  WHERE THE CONSTANTS COME FROM (Proofs/SimCountStep.lean: `sim_step_c`, the step lemma of the
+  simulation with the number of instructions: a step of the reference machine from a matched
+  state is matched by exactly `cost cfg` real instructions, each preceded by at most S sites).
+   * cost = 0 for: entering `x := v`, a mark, descending into the first argument of a call,
+     moving on to the next argument, storing a value in its variable.  `stut cfg` = how many such
+     steps come next; each of them decreases it by one and on reachable configurations it is
+     `≤ srcStutter src` = 1 + (longest run of marks, followed or not by `x :=` and the chain of
+     first arguments of the value) (Proofs/SimCountStutter.lean).  So one instruction pays for
+     itself and `srcStutter` free steps: κ = srcStutter src + 1.  The additive κ: the free steps
+     before the first instruction and the last step into `halted` (`HALT` is not executed).
+     Tight: `C01BudgetDemo.tight_*` (blocks `x := 1; M: M: M:`: 6 steps per instruction, κ = 6).
+   * cost ≤ 4 (`IF x = c THEN GOTO`: ADD, CONST, TEST, JMPC) except for the step performing a call
+     with k arguments: k + 2 (PREPARE, k × ARG, EXEC) — but k - 1 free steps moved from one
+     argument to the next before, so with a credit of one per computed argument the amortised
+     cost is ≤ 4 (`Sim.cost_credit`): C = 4·(S + 1), independent of arities.  D: the prologue
+     `PREPARE; JMP` over each of the L routine bodies (L + 1 instructions) and the sites before
+     the final `HALT`.
+  Both directions use determinism of the VM (`Steps.run`) and that no state before the matched
+  `HALT` is done.
 -/
-import Theo.Proofs.SimCount
+import Theo.Proofs.SimCountStutter
+import Theo.Proofs.SimCountUpper
 import Theo.Props.C01
 import Theo.Props.C01Compile
 
 namespace Theo
 open Sem
 
-/-- the proportionality factor of the budget: one more than the width of the source, the largest
-    `fsize` (Proofs/SimStep.lean) of a statement list occurring in it — a routine body, the main
+/-! ### the constants -/
+
+/-- κ: one more than the stutter bound of the source (`Sim.srcStutter`): 1 + the largest number
+    of instruction-free steps a statement list of the source (or an argument position of a
+    value) can start with, + 1 for the step that executes -/
+def stutterFactor (src : Source) : Nat := Sim.srcStutter src + 1
+
+/-- the cruder factor: one more than the width of the source, the largest `fsize`
+    (Proofs/SimStep.lean) of a statement list occurring in it — a routine body, the main
     program, the body of a loop, not counting nested bodies: 2 per statement, and for `x := v`
     additionally 2 + the number of nodes and of argument positions of `v` -/
 def budgetFactor (src : Source) : Nat := Sim.srcWidth src + 1
 
-/-- the VM cannot finish early: if the bytecode is done after `m` instructions, the reference
-    execution halts within `κ * m + κ` steps, `κ = budgetFactor src` -/
+/-- C: four real instructions per reference step (amortised), each after at most
+    `maxSiteRun p.code` sites -/
+def vmFactor (p : Program) : Nat := 4 * (Sim.maxSiteRun p.code + 1)
+
+/-- D: the prologue (`PREPARE`, one `JMP` per routine) and the sites before the final `HALT` -/
+def vmOffset (src : Source) (p : Program) : Nat := (Sim.maxSiteRun p.code + 1) * (src.progs.length + 2)
+
+/-! ### the VM cannot finish early -/
+
+/-- if the bytecode is done after `m` instructions, the reference execution halts within
+    `κ * m + κ` steps, `κ = stutterFactor src` -/
 theorem C01_budget (src : Source) (p : Program)
+    (hs : shapeCheck src p = true) (hw : wfCheck p = true)
+    (m : Nat) (vm : VM) (h : vmRun p m = .ok vm) (hd : vm.isDone = .ok true) :
+    ∃ n, n ≤ stutterFactor src * m + stutterFactor src ∧
+      (Sem.run src n (initial src) 0).1.status = .halted := by
+  obtain ⟨V, hV⟩ := Sim.valid_of_shapeCheck hs
+  obtain ⟨R, hc⟩ := WF.certOK_of_check hw
+  rw [vmRun_eq_runFrom] at h
+  obtain ⟨n, hn, hh⟩ := Sim.budget_sim_stut (Sim.siteBound_maxSiteRun p.code) hc hV
+    (Sim.stut_le_bound src) h hd
+  refine ⟨n, ?_, by rw [Sim.run_fst]; exact hh⟩
+  rw [Nat.mul_succ] at hn
+  exact hn
+
+/-- contrapositive, in the words of the property: a source that has not finished within
+    `κ * m + κ` steps has not finished on the VM within `m` instructions -/
+theorem C01_budget_not_finished (src : Source) (p : Program)
+    (hs : shapeCheck src p = true) (hw : wfCheck p = true) (m : Nat)
+    (hr : ∀ n, n ≤ stutterFactor src * m + stutterFactor src →
+      (Sem.run src n (initial src) 0).1.status = .running)
+    (vm : VM) (h : vmRun p m = .ok vm) : vm.isDone ≠ .ok true := by
+  intro hd
+  obtain ⟨n, hn, hh⟩ := C01_budget src p hs hw m vm h hd
+  rw [hr n hn] at hh
+  cases hh
+
+/-- the same with the width of the source: needs only the step lemma `Sim.sim_step` as it
+    stands (every instruction-free step decreases `cmeasure ≤ srcWidth src`) -/
+theorem C01_budget_width (src : Source) (p : Program)
     (hs : shapeCheck src p = true) (hw : wfCheck p = true)
     (m : Nat) (vm : VM) (h : vmRun p m = .ok vm) (hd : vm.isDone = .ok true) :
     ∃ n, n ≤ budgetFactor src * m + budgetFactor src ∧
@@ -54,29 +116,59 @@ theorem C01_budget (src : Source) (p : Program)
   rw [Nat.mul_succ] at hn
   exact hn
 
-/-- contrapositive, in the words of the property: a source that has not finished within
-    `κ * m + κ` steps has not finished on the VM within `m` instructions -/
-theorem C01_budget_not_finished (src : Source) (p : Program)
-    (hs : shapeCheck src p = true) (hw : wfCheck p = true) (m : Nat)
-    (hr : ∀ n, n ≤ budgetFactor src * m + budgetFactor src →
-      (Sem.run src n (initial src) 0).1.status = .running)
-    (vm : VM) (h : vmRun p m = .ok vm) : vm.isDone ≠ .ok true := by
-  intro hd
-  obtain ⟨n, hn, hh⟩ := C01_budget src p hs hw m vm h hd
-  rw [hr n hn] at hh
-  cases hh
+/-! ### the VM is not unboundedly slower -/
 
-/-- the same for every accepted compilation of the model -/
+/-- if the reference execution halts after `n` steps, the bytecode is done, with agreeing
+    variables, within `(S + 1) * (4 * n + L + 2)` instructions — for every bound `S` of the runs
+    of consecutive sites (`S = 0` for code without sites) -/
+theorem C01_budget_upper_of_bound (src : Source) (p : Program)
+    (hs : shapeCheck src p = true) (hw : wfCheck p = true)
+    (S : Nat) (hS : Sim.SiteBound p.code S)
+    (n : Nat) (hh : (Sem.run src n (initial src) 0).1.status = .halted) :
+    ∃ m vm, m ≤ (S + 1) * (4 * n + (src.progs.length + 2)) ∧ vmRun p m = .ok vm ∧
+      vm.isDone = .ok true ∧ ViewsAgree p (Sem.run src n (initial src) 0).1 vm := by
+  obtain ⟨V, hV, hsk⟩ := Sim.valid_of_shapeCheck_skipsN hs
+  obtain ⟨R, hc⟩ := WF.certOK_of_check hw
+  rw [Sim.run_fst] at hh ⊢
+  obtain ⟨m, vm, hle, h1, h2, h3⟩ := Sim.halts_sim_upper hS hc hV hsk hh
+  exact ⟨m, vm, hle, (vmRun_eq_runFrom p m).trans h1, h2, stacksAgree_of p vm _ _ h3⟩
+
+/-- … with the computed constants: `m ≤ C * n + D`, `C = vmFactor p`, `D = vmOffset src p` -/
+theorem C01_budget_upper (src : Source) (p : Program)
+    (hs : shapeCheck src p = true) (hw : wfCheck p = true)
+    (n : Nat) (hh : (Sem.run src n (initial src) 0).1.status = .halted) :
+    ∃ m vm, m ≤ vmFactor p * n + vmOffset src p ∧ vmRun p m = .ok vm ∧ vm.isDone = .ok true ∧
+      ViewsAgree p (Sem.run src n (initial src) 0).1 vm := by
+  obtain ⟨m, vm, hle, h⟩ := C01_budget_upper_of_bound src p hs hw _
+    (Sim.siteBound_maxSiteRun p.code) n hh
+  refine ⟨m, vm, ?_, h⟩
+  unfold vmFactor vmOffset
+  rw [Nat.mul_add, ← Nat.mul_assoc, Nat.mul_comm _ 4] at hle
+  exact hle
+
+/-! ### accepted compilations of the model -/
+
 theorem C01_compile_budget (files : Files) (main : Bytes)
     (hok : (compile files main).ok = true)
     (hl : LabelsOK (parseFiles files main).ast.root = true) :
     let src := toSource (parseFiles files main).ast.root
     let p := (compile files main).code
     ∀ m vm, vmRun p m = .ok vm → vm.isDone = .ok true →
-      ∃ n, n ≤ budgetFactor src * m + budgetFactor src ∧
+      ∃ n, n ≤ stutterFactor src * m + stutterFactor src ∧
         (Sem.run src n (initial src) 0).1.status = .halted := by
   intro src p
   exact C01_budget src p (C01_compile_shape files main hok hl) (C03_compile_wf files main hok)
+
+theorem C01_compile_budget_upper (files : Files) (main : Bytes)
+    (hok : (compile files main).ok = true)
+    (hl : LabelsOK (parseFiles files main).ast.root = true) :
+    let src := toSource (parseFiles files main).ast.root
+    let p := (compile files main).code
+    ∀ n, (Sem.run src n (initial src) 0).1.status = .halted →
+      ∃ m vm, m ≤ vmFactor p * n + vmOffset src p ∧ vmRun p m = .ok vm ∧ vm.isDone = .ok true ∧
+        ViewsAgree p (Sem.run src n (initial src) 0).1 vm := by
+  intro src p
+  exact C01_budget_upper src p (C01_compile_shape files main hok hl) (C03_compile_wf files main hok)
 
 /-! ### no universal constants: marks are free on the VM -/
 
@@ -163,9 +255,27 @@ theorem C01_budget_statement_false : ¬ C01_budget_statement := by
   obtain ⟨n, hn, hh⟩ := hst src p hs hw m vm h1 h2
   exact h3 n hn hh
 
-/-! ### non-vacuity: a concrete program -/
+/-! ### non-vacuity: concrete programs -/
 
 namespace C01BudgetDemo
+
+/-- is the VM done after `m` instructions? (for evaluation by `decide`) -/
+def doneAt (p : Program) (m : Nat) : Option Bool :=
+  match vmRun p m with
+  | .ok vm => (match vm.isDone with | .ok b => some b | .error _ => none)
+  | .error _ => none
+
+theorem doneAt_spec {p : Program} {m : Nat} {b : Bool} (h : doneAt p m = some b) :
+    ∃ vm, vmRun p m = .ok vm ∧ vm.isDone = .ok b := by
+  unfold doneAt at h
+  split at h
+  · rename_i vm hvm
+    split at h
+    · rename_i b' hb
+      cases h
+      exact ⟨vm, hvm, hb⟩
+    · cases h
+  · cases h
 
 /-- `x := 2; LOOP x DO y := y + 1 END; L:` (the loop's `END` and `L:` are marks) -/
 def demoSrc : Source :=
@@ -185,24 +295,134 @@ def demoProg : Program :=
 theorem demo_valid : shapeCheck demoSrc demoProg = true ∧ wfCheck demoProg = true := by
   decide +kernel
 
-theorem demo_factor : budgetFactor demoSrc = 9 := by decide
+/-- κ = 3 (at most 2 free steps in a row: after `y := y + 1` is computed, the store and `END`),
+    the width-based factor is 9; no sites, no routines: C = 4, D = 2 -/
+theorem demo_constants : stutterFactor demoSrc = 3 ∧ budgetFactor demoSrc = 9 ∧
+    vmFactor demoProg = 4 ∧ vmOffset demoSrc demoProg = 2 := by decide
 
 /-- the bytecode is done after 16 instructions (and not before) … -/
 theorem demo_vm : (∃ vm, vmRun demoProg 16 = .ok vm ∧ vm.isDone = .ok true) ∧
-    (∃ vm, vmRun demoProg 15 = .ok vm ∧ vm.isDone = .ok false) := ⟨⟨_, rfl, rfl⟩, ⟨_, rfl, rfl⟩⟩
+    (∃ vm, vmRun demoProg 15 = .ok vm ∧ vm.isDone = .ok false) :=
+  ⟨doneAt_spec (by decide +kernel), doneAt_spec (by decide +kernel)⟩
 
-/-- … hence (C01_budget) its source halts within 9 * 16 + 9 steps -/
-theorem demo_budget : ∃ n, n ≤ 9 * 16 + 9 ∧
+/-- … hence (C01_budget) its source halts within 3 * 16 + 3 steps -/
+theorem demo_budget : ∃ n, n ≤ 3 * 16 + 3 ∧
     (Sem.run demoSrc n (initial demoSrc) 0).1.status = .halted := by
   obtain ⟨vm, h1, h2⟩ := demo_vm.1
   have := C01_budget demoSrc demoProg demo_valid.1 demo_valid.2 16 vm h1 h2
-  rwa [demo_factor] at this
+  rwa [demo_constants.1] at this
 
--- evaluated: the reference execution halts after exactly 16 steps (3 for `x := 2`, 1 to enter the
--- loop, 5 per iteration — of which 4 stutter —, 1 for `L:`, 1 into `halted`)
+/-- the reference execution halts after 16 steps (and not before): 3 for `x := 2`, 1 to enter
+    the loop, 5 per iteration — of which 3 are free, at most 2 in a row —, 1 for `L:`, 1 into `halted` … -/
+theorem demo_ref : (Sem.run demoSrc 16 (initial demoSrc) 0).1.status = .halted ∧
+    (Sem.run demoSrc 15 (initial demoSrc) 0).1.status = .running := by decide +kernel
+
+/-- … hence (C01_budget_upper) the bytecode is done within 4 * 16 + 2 instructions -/
+theorem demo_budget_upper : ∃ m vm, m ≤ 4 * 16 + 2 ∧ vmRun demoProg m = .ok vm ∧
+    vm.isDone = .ok true ∧ ViewsAgree demoProg (Sem.run demoSrc 16 (initial demoSrc) 0).1 vm := by
+  have := C01_budget_upper demoSrc demoProg demo_valid.1 demo_valid.2 16 demo_ref.1
+  rwa [demo_constants.2.2.1, demo_constants.2.2.2] at this
+
 #guard (Sem.run demoSrc 100 (initial demoSrc) 0).2 == 16
-#guard (Sem.run demoSrc 100 (initial demoSrc) 0).1.status == .halted
-#guard (Sem.run demoSrc 15 (initial demoSrc) 0).1.status == .running
+
+/-! κ is the right factor: `K` blocks `x := 1; M: M: M:` take 6 steps each — entering the
+    assignment, the value (the only instruction: `CONST`), the store, three marks — so
+    `n = 6 * K + 1` against `m = K + 1`, and κ = 6. -/
+
+def block (rest : Stmts) : Stmts :=
+  .cons (.assign [120] (.num 1) ([], 0))
+    (.cons (.mark [77] ([], 0)) (.cons (.mark [77] ([], 0)) (.cons (.mark [77] ([], 0)) rest)))
+
+def blocks : Nat → Stmts
+  | 0 => .nil
+  | K + 1 => block (blocks K)
+
+def tightSrc : Source := ⟨[], blocks 10⟩
+def tightProg : Program :=
+  ⟨.prepare 1 0 0 :: List.replicate 10 (.const 0 1) ++ [.halt], [⟨[], [(0, [120])]⟩], [], []⟩
+
+theorem tight_valid : shapeCheck tightSrc tightProg = true ∧ wfCheck tightProg = true := by
+  decide +kernel
+
+theorem tight_factor : stutterFactor tightSrc = 6 := by decide +kernel
+
+/-- done after 11 instructions; the source needs 61 steps (bound: 6 * 11 + 6 = 72) -/
+theorem tight_vm : (∃ vm, vmRun tightProg 11 = .ok vm ∧ vm.isDone = .ok true) ∧
+    (∃ vm, vmRun tightProg 10 = .ok vm ∧ vm.isDone = .ok false) :=
+  ⟨doneAt_spec (by decide +kernel), doneAt_spec (by decide +kernel)⟩
+
+theorem tight_ref : (Sem.run tightSrc 61 (initial tightSrc) 0).1.status = .halted ∧
+    (Sem.run tightSrc 60 (initial tightSrc) 0).1.status = .running := by decide +kernel
+
+/-! C depends on the sites: two `IF x = 1 THEN GOTO E` (not taken) and `E:`, with a site before
+    every real instruction (S = 1): 4 reference steps, 18 instructions; bound 2 * (4 * 4 + 2). -/
+
+def ifSrc : Source :=
+  ⟨[], .cons (.ifGoto [120] 1 [69] ([], 0)) (.cons (.ifGoto [120] 1 [69] ([], 0))
+    (.cons (.mark [69] ([], 0)) .nil))⟩
+
+def ifProg : Program :=
+  ⟨[.prepare 4 0 0,
+    .potBreak, .add 1 0 0, .potBreak, .const 2 1, .potBreak, .test 3 1 2, .potBreak, .jmpc 9 3,
+    .potBreak, .add 1 0 0, .potBreak, .const 2 1, .potBreak, .test 3 1 2, .potBreak, .jmpc 1 3,
+    .potBreak, .halt],
+   [⟨[], [(0, [120])]⟩], [], []⟩
+
+theorem if_valid : shapeCheck ifSrc ifProg = true ∧ wfCheck ifProg = true := by decide +kernel
+
+theorem if_constants : Sim.maxSiteRun ifProg.code = 1 ∧ vmFactor ifProg = 8 ∧
+    vmOffset ifSrc ifProg = 4 := by decide
+
+theorem if_ref : (Sem.run ifSrc 4 (initial ifSrc) 0).1.status = .halted ∧
+    (Sem.run ifSrc 3 (initial ifSrc) 0).1.status = .running := by decide +kernel
+
+theorem if_vm : (∃ vm, vmRun ifProg 18 = .ok vm ∧ vm.isDone = .ok true) ∧
+    (∃ vm, vmRun ifProg 17 = .ok vm ∧ vm.isDone = .ok false) :=
+  ⟨doneAt_spec (by decide +kernel), doneAt_spec (by decide +kernel)⟩
+
+theorem if_budget_upper : ∃ m vm, m ≤ 8 * 4 + 4 ∧ vmRun ifProg m = .ok vm ∧
+    vm.isDone = .ok true ∧ ViewsAgree ifProg (Sem.run ifSrc 4 (initial ifSrc) 0).1 vm := by
+  have := C01_budget_upper ifSrc ifProg if_valid.1 if_valid.2 4 if_ref.1
+  rwa [if_constants.2.1, if_constants.2.2] at this
+
+/-! … and without a bound on the sites there is no bound at all: the empty program behind 100
+    sites — one reference step (into `halted`), 101 instructions. -/
+
+def sitesSrc : Source := ⟨[], .nil⟩
+def sitesProg : Program :=
+  ⟨.prepare 0 0 0 :: List.replicate 100 .potBreak ++ [.halt], [⟨[], []⟩], [], []⟩
+
+theorem sites_valid : shapeCheck sitesSrc sitesProg = true ∧ wfCheck sitesProg = true := by
+  decide +kernel
+
+theorem sites_ref : (Sem.run sitesSrc 1 (initial sitesSrc) 0).1.status = .halted := by decide
+
+theorem sites_vm : (∃ vm, vmRun sitesProg 101 = .ok vm ∧ vm.isDone = .ok true) ∧
+    (∃ vm, vmRun sitesProg 100 = .ok vm ∧ vm.isDone = .ok false) :=
+  ⟨doneAt_spec (by decide +kernel), doneAt_spec (by decide +kernel)⟩
+
+/-! The compiled program of `C01CompileDemo` (a macro, a PROGRAM, a call, a LOOP): both bounds hold
+    by `C01_compile_budget` / `C01_compile_budget_upper`; its constants (evaluated: `toSource`
+    does not reduce in the kernel) are κ = 4 (width-based: 27), no run of sites, C = 4, D = 3;
+    the reference execution halts after 45 steps, the bytecode is done after 46 instructions. -/
+
+theorem compile_demo_budget :
+    ∀ m vm, vmRun (compile C01CompileDemo.files C01CompileDemo.main).code m = .ok vm →
+      vm.isDone = .ok true →
+      ∃ n, n ≤ stutterFactor (toSource (parseFiles C01CompileDemo.files C01CompileDemo.main).ast.root) * m +
+            stutterFactor (toSource (parseFiles C01CompileDemo.files C01CompileDemo.main).ast.root) ∧
+        (Sem.run (toSource (parseFiles C01CompileDemo.files C01CompileDemo.main).ast.root) n
+          (initial (toSource (parseFiles C01CompileDemo.files C01CompileDemo.main).ast.root)) 0).1.status =
+            .halted :=
+  C01_compile_budget _ _ C01CompileDemo.demo_ok C01CompileDemo.demo_labels
+
+#guard stutterFactor (toSource (parseFiles C01CompileDemo.files C01CompileDemo.main).ast.root) == 4
+#guard budgetFactor (toSource (parseFiles C01CompileDemo.files C01CompileDemo.main).ast.root) == 27
+#guard vmFactor (compile C01CompileDemo.files C01CompileDemo.main).code == 4
+#guard vmOffset (toSource (parseFiles C01CompileDemo.files C01CompileDemo.main).ast.root)
+  (compile C01CompileDemo.files C01CompileDemo.main).code == 3
+#guard doneAt (compile C01CompileDemo.files C01CompileDemo.main).code 46 == some true
+#guard doneAt (compile C01CompileDemo.files C01CompileDemo.main).code 45 == some false
 
 end C01BudgetDemo
 
